@@ -759,6 +759,9 @@ def r5_walkers(ctx):
     ctx.check(len(subs) == 1, R, rel.key + "|-1", "release subtracts exactly once per occurrence", "release decrements changed (%d sites)" % len(subs))
 
 
+OPTIONAL_FNS = ("Executor::extract_heap_data_many", "Executor::inject_heap_data_many")
+
+
 def r6_copy_on_transfer(ctx):
     R = "R-C06-6"
     ctx.rule(R, "transfer by copy at worker boundaries: every Value leaving a worker in an Event passes extract_heap_data; every executor entry "
@@ -767,25 +770,49 @@ def r6_copy_on_transfer(ctx):
     W = "quiver_environment::worker::Worker"
     ha = F.body(W + "::handle_action")
     fl = Flow(ha, through_named=True)
-    ext = [bi for bi, _t in ha.calls_to("Executor::extract_heap_data")]
-    for variant, fields in (("SpawnAction", ("captures", "argument")), ("DeliverAction", ("message",))):
+    EXTRACT = ("Executor::extract_heap_data", "Executor::extract_heap_data_many")
+    THRU = ADAPT + ("Result::map_err", "Vec::pop", "Option::ok_or_else", "Option::ok_or", "Try::branch", "Iterator::collect", "IntoIterator::into_iter",
+                    "Iterator::next", "Option::unwrap", "Option::expect")
+
+    def extraction_calls(local):
+        out = set()
+        back = fl.backward({local}, through_calls=tuple(a for a in THRU if a not in ("Executor::inject_heap_data",)))
+        for b2, t2 in ha.calls():
+            if t2["dest"]["l"] in back and any((t2.get("callee") or "").endswith(e) for e in EXTRACT):
+                out.add(b2)
+        return out
+    for variant, fields in (("SpawnAction", ("captures", "argument", "heap")), ("DeliverAction", ("message", "heap"))):
         for bi, si, s in agg_sites(ha, "messages::Event", variant):
+            per_field = {}
             for fname, op in zip(s["rv"]["fields"], s["rv"]["ops"]):
                 if fname not in fields:
                     continue
                 p = op_place(op)
-                callees = fl.slice_reads(p["l"], through_calls=ADAPT + ("Result::map_err", "Vec::push", "Vec::new"))[3] if p else set()
-                srcs = fl.sources(p["l"], through_calls=tuple(a for a in ADAPT if a != "Executor::inject_heap_data") + ("Result::map_err",)) if p else []
-                from_extract = any(x[0] == "call" and (x[2].get("callee") or "").endswith("Executor::extract_heap_data") for x in srcs)
-                if fname == "captures":
-                    # vector filled by push(extracted) in a loop
-                    pushes = [(b2, t2) for b2, t2 in ha.calls_to("Vec::push") if fl.canon_op(t2["args"][0]) and fl.canon_op(t2["args"][0])[0] == fl.canon_op(op)[0]]
-                    from_extract = bool(pushes) and all(
-                        any(x[0] == "call" and (x[2].get("callee") or "").endswith("Executor::extract_heap_data")
-                            for x in fl.sources(op_place(t2["args"][1])["l"], through_calls=ADAPT + ("Result::map_err",))) for _b2, t2 in pushes)
-                ctx.check(from_extract, R, "%s|%s.%s" % (ha.key, variant, fname), "value is the result of extract_heap_data (heap bytes travel by copy)",
-                          "Event::%s.%s carries a value that did not pass extract_heap_data (a Heap index would cross the worker boundary)" % (variant, fname),
-                          ha.loc(bi, si))
+                calls_ = extraction_calls(p["l"]) if p else set()
+                if fname == "captures" and p:
+                    # older shape: a vector filled by push(extracted) in a loop
+                    for b2, t2 in ha.calls_to("Vec::push"):
+                        if fl.canon_op(t2["args"][0]) and fl.canon_op(op) and fl.canon_op(t2["args"][0])[0] == fl.canon_op(op)[0] and op_place(t2["args"][1]):
+                            calls_ |= extraction_calls(op_place(t2["args"][1])["l"])
+                if fname == "heap" and p:
+                    for b2, t2 in ha.calls():
+                        if (t2.get("callee") or "").split("::")[-1] in ("append", "extend", "push", "extend_from_slice") and fl.canon_op(t2["args"][0]) and \
+                                fl.canon_op(op) and fl.canon_op(t2["args"][0])[0] == fl.canon_op(op)[0] and len(t2["args"]) > 1 and op_place(t2["args"][1]):
+                            calls_ |= extraction_calls(op_place(t2["args"][1])["l"])
+                per_field[fname] = calls_
+                if fname != "heap":
+                    ctx.check(bool(calls_), R, "%s|%s.%s" % (ha.key, variant, fname), "value is the result of extract_heap_data (heap bytes travel by copy)",
+                              "Event::%s.%s carries a value that did not pass extract_heap_data (a Heap index would cross the worker boundary)" % (variant, fname),
+                              ha.loc(bi, si))
+            # ONE index space: the heap vector and every value sent with it come from a single extraction (each extraction numbers its binaries
+            # from 0; concatenating the vectors of several extractions makes the values' indices collide)
+            allc = set().union(*per_field.values()) if per_field else set()
+            in_loop = [c for c in allc if ha.reaches(ha.succ[c][0], c)] if allc else []
+            one = len(allc) == 1 and not in_loop and all(v == allc for v in per_field.values())
+            ctx.check(one, R, "%s|%s|one-index-space" % (ha.key, variant), "the heap vector and the value(s) sent with it come from one extraction call",
+                      "Event::%s sends values numbered by %d separate extract_heap_data calls%s next to ONE concatenated heap vector: every extraction numbers "
+                      "its binaries from 0, so the receiver resolves them all against the first blobs (a spawn with two binary captures sees the first "
+                      "one twice)" % (variant, len(allc), " (one of them in a loop)" if in_loop else ""), ha.loc(bi, si))
     # results leaving the worker
     for fname in ("query_and_await", "get_result", "extract_completed_result", "get_locals"):
         b = F.body(W + "::" + fname)
@@ -808,18 +835,26 @@ def r6_copy_on_transfer(ctx):
             vp = op_place(t["args"][-1])
             if vp is None or not value_typed(b, vp["l"]) and "Option" not in b.local_ty(vp["l"]):
                 continue
-            srcs = flb.sources(vp["l"], through_calls=tuple(a for a in ADAPT if a != "Executor::inject_heap_data") + ("Option::Some",))
+            srcs = flb.sources(vp["l"], through_calls=tuple(a for a in ADAPT if a != "Executor::inject_heap_data") + (
+                "Option::Some", "Vec::pop", "Option::ok_or", "Option::ok_or_else", "Try::branch", "IntoIterator::into_iter", "Iterator::next", "Option::unwrap"))
             vsrc = []
             for x in srcs:
                 if x[0] == "call" and ("value::Value" in b.local_ty(x[2]["dest"]["l"])):
                     vsrc.append((x[2].get("callee") or "").split("::")[-1])
                 elif x[0] == "arg" and "value::Value" in b.local_ty(x[1]):
                     vsrc.append("param:%s" % b.local_name(x[1]))
-            via = bool(vsrc) and all(v == "inject_heap_data" for v in vsrc)
+            via = bool(vsrc) and all(v in ("inject_heap_data", "inject_heap_data_many") for v in vsrc)
             n += 1
             ctx.check(via, R, "%s|%s" % (b.key, t["callee"].split("::")[-1]), "stored value is the result of inject_heap_data",
                       "%s stores a foreign value that did not pass inject_heap_data (sources: %s): its Heap indices belong to another worker" % (fname, vsrc), b.loc(bi))
         ctx.floor(R, "foreign-value stores in " + fname, n, 1)
+        if fname == "spawn_process":
+            injs = [bi for bi, t in b.calls() if (t.get("callee") or "").split("::")[-1] in ("inject_heap_data", "inject_heap_data_many")]
+            once = len(injs) == 1 and not b.reaches(b.succ[injs[0]][0], injs[0])
+            ctx.check(once, R, b.key + "|one-injection", "the heap vector that travelled with the captures and the argument is injected once",
+                      "spawn_process injects the accompanying heap vector %d time(s)%s: every injection allocates ALL its blobs again (unreferenced copies "
+                      "are never retained, hence never reclaimed) and values numbered in one space are remapped through different tables" % (
+                          len(injs), " in a loop" if injs and any(b.reaches(b.succ[i][0], i) for i in injs) else ""), b.loc(injs[0]) if injs else b.loc(0))
 
 
 def r7_process_returns_to_table(ctx):
